@@ -54,9 +54,7 @@ Proof. unfold subseteqb. intros H. apply bool_decide_eq_true in H. exact H. Qed.
 Lemma ta_alloc_shape s cid r p X s' : ta_alloc t s cid r p X = Ok s' -> alloc_shape s cid p s'.
 Proof.
   unfold ta_alloc, alloc_shape.
-  destruct (match r_type r with
-            | CpuReserved => if 0 <? r_full r then (0, r_fraction r + 1000 * r_full r) else (r_full r, r_fraction r)
-            | _ => (r_full r, r_fraction r) end) as [full frac].
+  set (full := eff_full r). set (frac := eff_frac r).
   set (ty := match r_type r with CpuReserved => _ | x => x end).
   assert (Fin : forall (Y : cset) ty' fr s0,
              Y ⊆ free_iso s p ∪ free_shar s p ->
